@@ -544,6 +544,33 @@ func Bounds(scope func(p *core.Prog) (map[*ssa.Function]bool, string)) Rule {
 						continue // compiler-checked
 					}
 					check("index", zero, true, norm(s.idx, 0))
+					// an index that is a parameter of an unexported helper, into a fixed-length array: in range when
+					// every call site passes a value in range (the guard of an extracted helper stays at the call site)
+					if !okAll && s.fixedLen >= 0 {
+						if prm, isP := s.idx.(*ssa.Parameter); isP {
+							if args, sites := callArgs(prm); args != nil {
+								all := true
+								for n, a := range args {
+									if k, isK := core.ConstInt(a); isK {
+										if k < 0 || k >= s.fixedLen {
+											all = false
+										}
+										continue
+									}
+									cb := sites[n].Block()
+									cf := factsAt(cb)
+									cv := collectVals(cb.Parent())
+									v := norm(a, 0)
+									if !proveLess(zero, v, false, cf, cv, 0) || !proveLess(v, lin{"", s.fixedLen, true}, true, cf, cv, 0) {
+										all = false
+									}
+								}
+								if all {
+									okAll, why = true, ""
+								}
+							}
+						}
+					}
 				} else {
 					lo := zero
 					if s.lo != nil {
